@@ -87,6 +87,16 @@ Theorem C09_extract_range_unterminated : forall mode crlf (rs : list arec) (r : 
 Proof. exact (fun mode crlf rs r oi oj Hwf Hne Hij => conj (render_file_unterminated crlf rs r) (extract_range_unterminated mode crlf r (render_recs (nl_of crlf) rs) oi oj Hwf Hne Hij)). Qed.
 Print Assumptions C09_extract_range_unterminated.
 
+(* file numbers: every entry of the index built from the registered files (in REGISTRATION order, file numbers counted from 0)
+   carries the position of the very file whose scan produced it, so FastaIndex._search, which opens files[fn] of the same
+   list (fastaindex.py:294), reads the offsets in the right file.  (That a reopened index reads the same list back from its
+   header is not modelled; it is checked by the correspondence with files registered against the order of their names.) *)
+Theorem C09_scan_files_registered : forall (reg : list str) es, scan_files reg 0 = Ok es ->
+  forall e, In e es ->
+  exists f es', nth_error reg (e_fn e) = Some f /\ scan_file f (e_fn e) = Ok es' /\ In e es'.
+Proof. exact (fun reg es H e He => match scan_files_registered reg 0 es H e He with conj _ (ex_intro _ f (ex_intro _ es' (conj N R))) => ex_intro _ f (ex_intro _ es' (conj (eq_ind _ (fun n => nth_error reg n = Some f) N _ (PeanoNat.Nat.sub_0_r (e_fn e))) R)) end). Qed.
+Print Assumptions C09_scan_files_registered.
+
 (* P1 scan_index + index_get_spec, bounded: for every file of the box (width 1-5, 0-11 residues, LF/CRLF, with/without final
    newline, record alone/first/middle/last: 960 files) the scanner yields exactly one entry per record with the offsets and
    line lengths assumed by C09_extract_record, and get on the resulting index returns upper(s[i:j]) for every range
@@ -105,8 +115,8 @@ Example C09_witness :
   let r := ARec (bs "a"%bs) (bs " d"%bs) (bs "ACGTACGTACGT"%bs) 5 in
   let f := [FAbs true true [ARec (bs "p"%bs) [] (bs "TT"%bs) 3; r; ARec (bs "q"%bs) [] (bs "GGGG"%bs) 2]] in
   wf_rec MODE_DB 2 r = true
-  /\ wf_C09 MODE_DB 0 true f [Query 0 (bs "a"%bs) (Some (Some 3%Z, Some 8%Z))] = true
-  /\ out (run_C09 MODE_DB 0 true f [Query 0 (bs "a"%bs) (Some (Some 3%Z, Some 8%Z)); Query 0 (bs "a"%bs) (Some (Some 9%Z, Some 30%Z));
+  /\ wf_C09 MODE_DB 0 true [0] f [Query 0 (bs "a"%bs) (Some (Some 3%Z, Some 8%Z))] = true
+  /\ out (run_C09 MODE_DB 0 true [0] f [Query 0 (bs "a"%bs) (Some (Some 3%Z, Some 8%Z)); Query 0 (bs "a"%bs) (Some (Some 9%Z, Some 30%Z));
                                      Query 0 (bs "a"%bs) (Some (Some 20%Z, Some 30%Z))])
      = out (VL [VB true; VL [VL [VI 44; VI 3386509425]];
                 VL [VI 3; VL [VL [VS (bs "a"%bs); VS (bs "a d"%bs); VS (bs "TACGT"%bs)];
